@@ -3,8 +3,10 @@
 # the other; summary lines go to seeded/EVAL.log. Meant for `vp run --with-repo -- ./seed_eval_all.sh`.
 V=$(cd $(dirname $0) && pwd)
 pat=${1:-.}
+mkdir -p /tmp/seedrun
 for d in $V/seeded/*/; do
   n=$(basename $d)
+  [ -f $d/patch.diff ] || continue
   echo $n | grep -Eq "$pat" || continue
   s=$(date +%s)
   $V/seed_eval.sh $n quick 2>&1 | tail -9 > /tmp/seedrun/last_$n.txt
